@@ -421,39 +421,30 @@ static void bind_event() {
     reset();
 }
 
-template<class T> void gen_random(uint64_t seed) {
-    Rng rng(seed);
-    const int G = g_thorough ? 12 : 2;
-    for (int g = 0; g < G; ++g) {
-        int mode = g % 3 == 2 ? 1 : (g % 3 == 1 ? 2 : 0);
-        group_flt<1, T>(rng, 10, mode); group_flt<2, T>(rng, 6, mode); group_flt<3, T>(rng, 5, mode); group_flt<4, T>(rng, 5, mode);
-        group_region<2, T>(rng, 8, mode); group_region<3, T>(rng, 8, mode);
-        group_sphere<T>(rng, 10, mode);
-        group_gauss<T>(rng, 10, mode);
-        group_gauss_vec<2, T>(rng, 3, mode);
-        if (g_thorough) { group_gauss_vec<3, T>(rng, 2, mode); group_gauss_vec<4, T>(rng, 2, mode); }
-    }
-    gauss_zero<T>();
+template<class T> void gen_random(Rng& rng, int g) {                                       // one round of groups
+    int mode = g % 3 == 2 ? 1 : (g % 3 == 1 ? 2 : 0);                                      // draws: agreeing under both byte reductions / any / mixed
+    group_flt<1, T>(rng, 10, mode); group_flt<2, T>(rng, 6, mode); group_flt<3, T>(rng, 5, mode); group_flt<4, T>(rng, 5, mode);
+    group_region<2, T>(rng, 8, mode); group_region<3, T>(rng, 8, mode);
+    group_sphere<T>(rng, 10, mode);
+    group_gauss<T>(rng, 10, mode);
+    group_gauss_vec<2, T>(rng, 3, mode);
+    if (g_thorough) { group_gauss_vec<3, T>(rng, 2, mode); group_gauss_vec<4, T>(rng, 2, mode); }
 }
-static void gen_random_int(uint64_t seed) {
-    Rng rng(seed);
-    const int G = g_thorough ? 10 : 2;
-    for (int g = 0; g < G; ++g) {
-        int mode = g % 3 == 2 ? 1 : (g % 3 == 1 ? 2 : 0);
-        group_int_scalar<signed char>(rng, 12, mode); group_int_scalar<unsigned char>(rng, 12, mode);
-        group_int_scalar<short>(rng, 10, mode); group_int_scalar<unsigned short>(rng, 10, mode);
-        group_int_scalar<int>(rng, 10, mode); group_int_scalar<unsigned>(rng, 10, mode);
-        group_int_scalar<glm::int64>(rng, 8, mode); group_int_scalar<glm::uint64>(rng, 8, mode);
-        group_int<2, unsigned char>(rng, 8, mode); group_int<3, unsigned char>(rng, 8, mode); group_int<4, unsigned char>(rng, 8, mode);
-        group_int<4, signed char>(rng, 6, mode);
-        group_int<2, unsigned short>(rng, 6, mode); group_int<3, short>(rng, 6, mode);
-        group_int<4, unsigned>(rng, 5, mode); group_int<2, int>(rng, 5, mode);
-        group_int<3, glm::uint64>(rng, 4, mode); group_int<2, glm::int64>(rng, 4, mode);
-        if (g_thorough) {
-            group_int<2, signed char>(rng, 6, mode); group_int<3, signed char>(rng, 6, mode); group_int<4, unsigned short>(rng, 6, mode); group_int<2, short>(rng, 6, mode); group_int<4, short>(rng, 6, mode);
-            group_int<3, unsigned short>(rng, 6, mode); group_int<2, unsigned>(rng, 5, mode); group_int<3, unsigned>(rng, 5, mode); group_int<3, int>(rng, 5, mode); group_int<4, int>(rng, 5, mode);
-            group_int<2, glm::uint64>(rng, 4, mode); group_int<4, glm::uint64>(rng, 4, mode); group_int<3, glm::int64>(rng, 4, mode); group_int<4, glm::int64>(rng, 4, mode);
-        }
+static void gen_random_int(Rng& rng, int g) {
+    int mode = g % 3 == 2 ? 1 : (g % 3 == 1 ? 2 : 0);
+    group_int_scalar<signed char>(rng, 12, mode); group_int_scalar<unsigned char>(rng, 12, mode);
+    group_int_scalar<short>(rng, 10, mode); group_int_scalar<unsigned short>(rng, 10, mode);
+    group_int_scalar<int>(rng, 10, mode); group_int_scalar<unsigned>(rng, 10, mode);
+    group_int_scalar<glm::int64>(rng, 8, mode); group_int_scalar<glm::uint64>(rng, 8, mode);
+    group_int<2, unsigned char>(rng, 8, mode); group_int<3, unsigned char>(rng, 8, mode); group_int<4, unsigned char>(rng, 8, mode);
+    group_int<4, signed char>(rng, 6, mode);
+    group_int<2, unsigned short>(rng, 6, mode); group_int<3, short>(rng, 6, mode);
+    group_int<4, unsigned>(rng, 5, mode); group_int<2, int>(rng, 5, mode);
+    group_int<3, glm::uint64>(rng, 4, mode); group_int<2, glm::int64>(rng, 4, mode);
+    if (g_thorough) {
+        group_int<2, signed char>(rng, 6, mode); group_int<3, signed char>(rng, 6, mode); group_int<4, unsigned short>(rng, 6, mode); group_int<2, short>(rng, 6, mode); group_int<4, short>(rng, 6, mode);
+        group_int<3, unsigned short>(rng, 6, mode); group_int<2, unsigned>(rng, 5, mode); group_int<3, unsigned>(rng, 5, mode); group_int<3, int>(rng, 5, mode); group_int<4, int>(rng, 5, mode);
+        group_int<2, glm::uint64>(rng, 4, mode); group_int<4, glm::uint64>(rng, 4, mode); group_int<3, glm::int64>(rng, 4, mode); group_int<4, glm::int64>(rng, 4, mode);
     }
 }
 
@@ -489,6 +480,11 @@ template<int L, class T> void ev_pair(bool simplex, const T* c, const T* c2) {
     glm::vec<L, T, glm::highp> p = mkv<L, T>(c), q = mkv<L, T>(c2);
     T r = simplex ? glm::simplex(p) : glm::perlin(p), r2 = simplex ? glm::simplex(q) : glm::perlin(q);
     Ev(simplex ? "simplexPair" : "perlinPair").str("t", TI<T>::code()).num("n", L).arg(p).arg(q).res(r).val("r2", r2).emit();
+}
+template<int L, class T> void ev_pair_rep(const T* c, const T* c2, const T* rep) {
+    glm::vec<L, T, glm::highp> p = mkv<L, T>(c), q = mkv<L, T>(c2), rp = mkv<L, T>(rep);
+    T r = glm::perlin(p, rp), r2 = glm::perlin(q, rp);
+    Ev("perlinRepPair").str("t", TI<T>::code()).num("n", L).arg(p).arg(q).arg(rp).res(r).val("r2", r2).emit();
 }
 template<class T> void rnd_point(Rng& rng, T* c, int maxscale) {                             // dyadic point, 20 significant bits, magnitude up to 2^maxscale
     int sc = int(rng.below(maxscale + 1));
@@ -537,6 +533,16 @@ template<int L, class T> void gen_noise(uint64_t seed) {
         ev_perlin_rep<L, T>(c, rep, c2);
         if (it % 10 == 0) { rep[0] = T(2.5); ev_perlin_rep<L, T>(c, rep, c2); rep[0] = T(0); ev_perlin_rep<L, T>(c, rep, c2); rep[0] = T(-3); ev_perlin_rep<L, T>(c, rep, c); }      // outside the domain
     }
+    // the periodic variant is continuous as well, in particular across the planes where the lattice index wraps (multiples of rep)
+    for (int it = 0; it < 40 * M; ++it) {
+        rnd_point<T>(rng, c, 5);
+        for (int k = 0; k < 4; ++k) rep[k] = T(1 + (long long)rng.below(6));
+        int ax = int(rng.below(L)); int hb = F ? 12 + int(rng.below(6)) : 12 + int(rng.below(30));
+        if (it % 4 != 3) c[ax] = rep[ax] * T((long long)rng.below(7) - 3) - dy<T>(1, -hb - 1);                        // just below a wrap plane
+        for (int k = 0; k < 4; ++k) c2[k] = c[k];
+        c2[ax] = c[ax] + dy<T>(1, -hb);
+        ev_pair_rep<L, T>(c, c2, rep);
+    }
     // period 289 of the permutation, perlin(p) against perlin(p, 289)
     for (int it = 0; it < 50 * M; ++it) {
         int sc = int(rng.below(10));
@@ -553,6 +559,16 @@ template<int L, class T> void gen_noise(uint64_t seed) {
             if (it % 4 == 0) { c[ax] = T((long long)rng.below(33) - 16) - dy<T>(1, -hb - 1); }                      // just below an integer plane
             for (int k = 0; k < 4; ++k) c2[k] = c[k];
             c2[ax] = c[ax] + dy<T>(1, -hb);
+            ev_pair<L, T>(which != 0, c, c2);
+        }
+        // points whose coordinate differences are all integers (the diagonals of the skewed cells: ties of the rank ordering of simplex)
+        for (int it = 0; it < 10 * M; ++it) {
+            T t = dy<T>((long long)rng.below(257) - 128, -6);
+            for (int k = 0; k < 4; ++k) c[k] = t + T((long long)rng.below(7) - 3);
+            if (it == 0) for (int k = 0; k < 4; ++k) c[k] = T(0.5);
+            int ax = int(rng.below(L)); int hb = F ? 18 : 30;
+            for (int k = 0; k < 4; ++k) c2[k] = c[k];
+            c2[ax] = c[ax] + dy<T>((it % 2) ? 1 : -1, -hb);
             ev_pair<L, T>(which != 0, c, c2);
         }
         // jump search: a segment along an axis is split into quarters again and again, always keeping the quarter whose increment
@@ -594,7 +610,7 @@ static void gen_perlin2_exact(uint64_t seed) {
         switch (it % 5) {
             case 0: c[0] = dy<float>((long long)rng.below(1 << 10) - (1 << 9), -5); c[1] = dy<float>((long long)rng.below(1 << 10) - (1 << 9), -5); break;
             case 1: c[0] = from_bits<float>(0x3f000000u + uint32_t(rng.below(0x03000000u))) * (rng.below(2) ? 1.0f : -1.0f); c[1] = from_bits<float>(0x3e000000u + uint32_t(rng.below(0x05000000u))); break;
-            case 2: c[0] = dy<float>((long long)rng.below(1 << 24), -int(rng.below(20))); c[1] = -dy<float>((long long)rng.below(1 << 24), -int(rng.below(20))); break;
+            case 2: { int e0 = 4 + int(rng.below(20)), e1 = 4 + int(rng.below(20)); c[0] = dy<float>((long long)rng.below(1 << 24), -e0); c[1] = -dy<float>((long long)rng.below(1 << 24), -e1); break; }
             case 3: c[0] = float(289 * ((long long)rng.below(7) - 3)) + dy<float>((long long)rng.below(64), -6); c[1] = float((long long)rng.below(600) - 300) + dy<float>((long long)rng.below(64), -6); break;
             default: c[0] = dy<float>((long long)rng.below(1 << 16) - (1 << 15), -12); c[1] = dy<float>((long long)rng.below(1 << 16) - (1 << 15), -12); break;
         }
@@ -609,12 +625,22 @@ static void body(int argc, char** argv) {
     reset();
     bind_event();
     fixed_sequences();
-    gen_random_int(seed * 77 + 1);
-    gen_random<float>(seed * 77 + 2);
-    gen_random<double>(seed * 77 + 3);
-    gen_noise<2, float>(seed * 77 + 4); gen_noise<3, float>(seed * 77 + 5); gen_noise<4, float>(seed * 77 + 6);
-    gen_noise<2, double>(seed * 77 + 7); gen_noise<3, double>(seed * 77 + 8); gen_noise<4, double>(seed * 77 + 9);
-    gen_perlin2_exact(seed * 77 + 10);
+    gauss_zero<float>(); gauss_zero<double>();
+    // rounds of generator groups (stateful, delimited by Reset markers) interleaved with the stateless noise events, so that the
+    // chunks of the trace cost about the same
+    Rng ri(seed * 77 + 1), rf(seed * 77 + 2), rd(seed * 77 + 3);
+    const int G = g_thorough ? 30 : 5;
+    for (int g = 0; g < G; ++g) {
+        gen_random_int(ri, g); gen_random<float>(rf, g); gen_random<double>(rd, g);
+        int slot = g_thorough ? (g % 5 == 0 ? g / 5 : -1) : g;
+        if (slot == 0) gen_noise<2, float>(seed * 77 + 4);
+        if (slot == 1) gen_noise<3, float>(seed * 77 + 5);
+        if (slot == 2) gen_noise<4, float>(seed * 77 + 6);
+        if (slot == 3) gen_noise<2, double>(seed * 77 + 7);
+        if (slot == 4) { gen_noise<3, double>(seed * 77 + 8); gen_noise<4, double>(seed * 77 + 9); }
+        if (slot == 5) gen_perlin2_exact(seed * 77 + 10);
+    }
+    if (!g_thorough) gen_perlin2_exact(seed * 77 + 10);
     reset();
 }
 int main(int argc, char** argv) { return run_main(argc, argv, body); }
